@@ -45,6 +45,11 @@ pub struct Tcp2Cfg {
     /// the application's doing and waived by C02, but C01 still applies: Finished must not
     /// be reported for a stream that was not handed over completely)
     pub lazy_reader: bool,
+    /// the explored connection is the SECOND one on the same two sockets. 1: the first one
+    /// ended by A.abort() with residue everywhere (unacknowledged data in both transmit
+    /// buffers, an out-of-order island in B's reassembler); 2: the first one was closed
+    /// gracefully by A (A sits in TIME-WAIT, B went LAST-ACK -> CLOSED, both saw a FIN)
+    pub prefix: u8,
 }
 
 impl Tcp2Cfg {
@@ -69,6 +74,7 @@ impl Tcp2Cfg {
             slaac: false,
             eth: false,
             lazy_reader: false,
+            prefix: 0,
         }
     }
 }
@@ -224,6 +230,92 @@ impl Tcp2 {
             rx_cap: cfg.rx[side],
             invalid_seen: false,
             gave_up: false,
+        }
+    }
+
+    /// poll one side outside the monitored world (first connection of a `prefix` configuration)
+    fn raw_poll(&mut self, side: usize) -> Vec<Vec<u8>> {
+        let now = self.instant();
+        let e = &mut self.ends[side];
+        e.iface.poll(now, &mut e.dev, &mut e.sockets);
+        e.dev.take_tx().into_iter().map(|(_, f)| f).collect()
+    }
+    /// shuttle frames both ways until nothing is emitted any more
+    fn raw_run(&mut self) {
+        for _ in 0..64 {
+            let a = self.raw_poll(0);
+            for f in &a {
+                self.ends[1].dev.rx.push_back(f.clone());
+            }
+            let b = self.raw_poll(1);
+            for f in &b {
+                self.ends[0].dev.rx.push_back(f.clone());
+            }
+            if a.is_empty() && b.is_empty() && self.ends[0].dev.rx.is_empty() && self.ends[1].dev.rx.is_empty() {
+                return;
+            }
+        }
+        panic!("first connection does not settle");
+    }
+    /// A scripted earlier connection on the same sockets (no time passes, nothing is explored,
+    /// nothing is judged); what it leaves behind must not leak into the explored connection.
+    fn first_connection(&mut self, kind: u8) {
+        assert!(!self.cfg.eth && self.cfg.isn.is_none(), "prefix configurations: IP medium, free ISN");
+        self.ends[1].sock().listen(PORT_B).expect("listen");
+        let remote = self.ends[1].addr;
+        {
+            let e = &mut self.ends[0];
+            let cx = e.iface.context();
+            e.sockets.get_mut::<tcp::Socket>(e.h).connect(cx, (remote, PORT_B), PORT_A).expect("connect");
+        }
+        self.raw_run();
+        assert!(self.ends[0].state() == State::Established && self.ends[1].state() == State::Established, "first connection not established");
+        match kind {
+            1 => {
+                let na = self.ends[0].sock().send_slice(&[0xa1; 4096]).unwrap_or(0);
+                let nb = self.ends[1].sock().send_slice(&[0xb2; 4096]).unwrap_or(0);
+                assert!(na > 0 && nb > 0);
+                // everything A sends in one burst; only its last segment reaches B: an island
+                let mut burst = vec![];
+                for _ in 0..8 {
+                    let f = self.raw_poll(0);
+                    if f.is_empty() {
+                        break;
+                    }
+                    burst.extend(f);
+                }
+                if burst.len() >= 2 {
+                    let last = burst.pop().unwrap();
+                    self.ends[1].dev.rx.push_back(last);
+                }
+                // B's data and (duplicate) ACKs never arrive: its transmit buffer stays full
+                let _ = self.raw_poll(1);
+                self.ends[0].sock().abort();
+                for f in self.raw_poll(0) {
+                    self.ends[1].dev.rx.push_back(f);
+                }
+                let _ = self.raw_poll(1);
+                assert!(self.ends[0].state() == State::Closed && self.ends[1].state() == State::Closed, "first connection not reset");
+            }
+            _ => {
+                self.ends[0].sock().send_slice(b"first connection").unwrap();
+                self.ends[0].sock().close();
+                self.raw_run();
+                let mut buf = [0u8; 64];
+                while let Ok(n) = self.ends[1].sock().recv_slice(&mut buf) {
+                    if n == 0 {
+                        break;
+                    }
+                }
+                self.raw_run();
+                self.ends[1].sock().close();
+                self.raw_run();
+                assert!(self.ends[0].state() == State::TimeWait && self.ends[1].state() == State::Closed, "first connection not closed: {:?} {:?}", self.ends[0].state(), self.ends[1].state());
+            }
+        }
+        for e in self.ends.iter_mut() {
+            e.dev.rx.clear();
+            let _ = e.dev.take_tx();
         }
     }
 
@@ -534,6 +626,9 @@ impl Harness for Tcp2 {
             keep_emitted: false,
             cached_deadline: None,
         };
+        if cfg.prefix != 0 {
+            t.first_connection(cfg.prefix);
+        }
         // B listens, A connects
         t.ends[1].sock().listen(PORT_B).expect("listen");
         let remote = t.ends[1].addr;
@@ -771,6 +866,9 @@ pub fn configs(tier: Tier) -> Vec<(Tcp2Cfg, u32)> {
     let eth6s = Tcp2Cfg { eth: true, v6: true, mtu: 1280, slaac: true, len: [100, 20], rx: [64, 32], ..b("eth-v6-slaac") };
     let lazy = Tcp2Cfg { lazy_reader: true, len: [30, 30], b_waits_fin: false, ..b("lazy-reader-through-time-wait") };
     let tiny = Tcp2Cfg { rx: [8, 8], tx: [16, 16], len: [20, 9], mtu: 80, ..b("rx8-bidir") };
+    // the explored connection re-uses sockets that have carried a connection before
+    let reuse1 = Tcp2Cfg { prefix: 1, len: [60, 20], ..b("reuse-after-abort") };
+    let reuse2 = Tcp2Cfg { prefix: 2, len: [60, 20], ..b("reuse-after-close") };
     // sweep of stream lengths against a 24-byte transmit ring and a 10-byte peer window: for
     // some lengths the final unsent chunk straddles the end of the ring storage at close()
     let sweep_k = if tier == Tier::Quick { 1 } else { 2 };
@@ -781,6 +879,8 @@ pub fn configs(tier: Tier) -> Vec<(Tcp2Cfg, u32)> {
     match tier {
         Tier::Quick => {
             v.push((lazy, 3));
+            v.push((reuse1, 2));
+            v.push((reuse2, 2));
             v.push((eth4, 2));
             v.push((eth6s, 2));
             v.push((small, 4));
@@ -801,6 +901,8 @@ pub fn configs(tier: Tier) -> Vec<(Tcp2Cfg, u32)> {
         }
         Tier::Thorough => {
             v.push((lazy, 4));
+            v.push((reuse1, 3));
+            v.push((reuse2, 3));
             v.push((eth4, 3));
             v.push((eth6s, 3));
             v.push((small, 5));
